@@ -80,7 +80,7 @@ def main():
         var = output.createVariable("quantile", "f4", ("quantile"))
         var[:] = args.quantiles
         output.createVariable("x", "f4", ("time", "leadtime", "location", "quantile"))
-    vTime = output.createVariable("time", "i4", ("time",))
+    vTime = output.createVariable("time", "f8", ("time",))
     vOffset = output.createVariable("leadtime", "f4", ("leadtime",))
     vLocation = output.createVariable("location", "i4", ("location",))
     vLat = output.createVariable("lat", "f4", ("location",))
